@@ -1,6 +1,11 @@
 HOOK_COMMITS = ["d7b8c4f"]
 NOTES = "See DESIGN.md. Every check rebuilds vjanet from /repo's working tree (content-hash cache under build/)."
-CHECKS = []
+CHECKS = [
+ dict(id="C06",
+      technique="explicit-state BFS over director histories on the real event loop vs. abstract channel model",
+      text="Explicit-state model checking on the implementation: every history of director actions (give/take/select with 1-2 clauses in both orders/rselect/close on 1-3 channels of capacity 0..2 with 2-4 fibers) up to a depth bound is replayed on fresh channels in the real interpreter; after each action the loop runs to quiescence and worker states, completions with results and ev/count/full/capacity must equal the abstract channel model. Plus exhaustive give/take sequences over the ring-buffer queue under ASan.",
+      note="Trusted: the Python channel model (FIFO service, stale registrations inert, abandoned select give-items stay queued), quiescence detection by repeated (ev/sleep 0) under virtual time, deterministic run queue. Bounds in evidence; thread channels are C08."),
+]
 _ALL = ["C%02d" % i for i in range(1, 21)]
 def _na():
     done = {c["id"] for c in CHECKS}
